@@ -79,6 +79,16 @@ def _record_side(kind, nid, x):
             f.write("%s %d %d %d %.6f\n" % (kind, nid, x, os.getpid(), time.time()))
 
 
+FAIL_MESSAGES = [
+    "verif-fail n%d %d",
+    "verif-fail n%d %d: missing key {x} in {cfg!r}",
+    "verif-fail n%d %d: unbalanced { brace",
+    "verif-fail n%d %d: closing } only, 100%% done, %%s %%d {0} {}",
+    "verif-fail n%d %d: line one\n  line {two}\n\ttabbed }}",
+    "verif-fail n%d %d: non-ASCII \u00e9\u00df\u2713 \u4e2d\u6587 {\u00fc}",
+]
+
+
 @python.define
 def Body(nid: int, x: int = -1, a: ty.Any = None, b: ty.Any = None, c: ty.Any = None,
          failset: ty.Any = (), dur: ty.Any = ()) -> ty.Any:
@@ -97,7 +107,8 @@ def Body(nid: int, x: int = -1, a: ty.Any = None, b: ty.Any = None, c: ty.Any = 
     if (nid, x) in {tuple(t) for t in failset}:
         if sync:
             fw.CTL.evlog.append(("F", jid, False))
-        raise Exception("verif-fail n%d %d" % (nid, x))
+        # the error text is something the scheduling loop processes: format-special characters, newlines, non-ASCII
+        raise Exception(fw.FAIL_MESSAGES[(3 * nid + x) % len(fw.FAIL_MESSAGES)] % (nid, x))
     if sync:
         fw.CTL.evlog.append(("F", jid, True))
     gen_file = os.environ.get("VERIF_GEN_FILE")
@@ -163,6 +174,68 @@ def make_coerce_workflow(nodes):
     return VerifCoerceWf(spec=spec)
 
 
+@python.define
+def Third(x: float) -> float:
+    return x / 3
+
+
+@python.define
+def SumUp(xs: ty.Any) -> float:
+    return sum(xs)
+
+
+def _hook_log(tag, job):
+    path = os.environ.get("VERIF_HOOK_LOG")
+    if path:
+        with open(path, "a") as f:
+            f.write("%s %s %s\n" % (tag, job.name, job.state_index))
+
+
+def hook_pre_run(job, *a, **k):
+    _hook_log("pre_run", job)
+
+
+def hook_pre_run_task(job, *a, **k):
+    _hook_log("pre_run_task", job)
+
+
+def hook_post_run_task(job, result, *a, **k):
+    """Observable effect on the outputs: they are rounded to two digits."""
+    _hook_log("post_run_task", job)
+    if result.outputs is not None:
+        result.outputs.out = round(result.outputs.out, 2)
+
+
+def hook_post_run(job, result, *a, **k):
+    _hook_log("post_run", job)
+
+
+def make_hook_workflow(nodes):
+    """nodes: [dict(id=0, kind='third', xs=[floats]), dict(id=1, kind='sumup', preds=[0])]; every node carries the
+    four node-level hooks (workflow.add(..., hooks=...))."""
+    from pydra.engine.hooks import TaskHooks
+    names = ["o%d" % n["id"] for n in nodes]
+
+    @workflow.define(outputs={nm: ty.Any for nm in names})
+    def VerifHookWf(spec: ty.Any):
+        outs = {}
+        for n in spec:
+            n = dict(n)
+            if n["kind"] == "third":
+                t = Third().split(x=[float(v) for v in n["xs"]]).combine("x")
+            else:
+                t = SumUp(xs=outs[n["preds"][0]])
+            node = workflow.add(t, name="n%d" % n["id"],
+                                hooks=TaskHooks(pre_run=hook_pre_run, pre_run_task=hook_pre_run_task,
+                                                post_run_task=hook_post_run_task, post_run=hook_post_run))
+            outs[n["id"]] = node.out
+        return tuple(outs[dict(m)["id"]] for m in spec)
+
+    spec = tuple(tuple(sorted((k, tuple(v) if isinstance(v, list) else v) for k, v in n.items()))
+                 for n in nodes)
+    return VerifHookWf(spec=spec)
+
+
 def make_state_workflow(nodes):
     """nodes: [dict(id, kind='s3', dims=[np, nq, nr], combine=[...]), dict(id, kind='down', preds=[up])]."""
     names = ["o%d" % n["id"] for n in nodes]
@@ -190,6 +263,8 @@ def make_state_workflow(nodes):
 
 
 def make_workflow(nodes, failset=(), dur=()):
+    if any(n.get("kind") in ("third", "sumup") for n in nodes):
+        return make_hook_workflow(nodes)
     if any(n.get("kind") in ("half", "pair", "describe") for n in nodes):
         return make_coerce_workflow(nodes)
     if any(n.get("kind") for n in nodes):
@@ -398,6 +473,10 @@ def run_case(case):
             os.environ["VERIF_SIDE_FILE"] = side
         else:
             os.environ.pop("VERIF_SIDE_FILE", None)
+        if mode.startswith("hook"):
+            os.environ["VERIF_HOOK_LOG"] = os.path.join(tmp, "hooks.log")
+        else:
+            os.environ.pop("VERIF_HOOK_LOG", None)
         wf = make_workflow(case["nodes"], failset=case.get("fail") or [], dur=case.get("dur") or [])
         cache = os.path.join(tmp, "cache")
         rerun = mode.startswith("rerun")
@@ -424,9 +503,9 @@ def run_case(case):
         kw = {}
         if case.get("k") is not None:
             kw["max_concurrent"] = int(case["k"])
-        if mode in ("async", "rerun", "rerun_gen", "state", "coerce"):
+        if mode in ("async", "rerun", "rerun_gen", "state", "coerce", "hook"):
             worker = FakeWorker
-        elif mode in ("sync", "rerun_sync", "state_sync", "coerce_sync"):
+        elif mode in ("sync", "rerun_sync", "state_sync", "coerce_sync", "hook_sync"):
             worker = "debug"
         else:
             worker = "cf"
@@ -435,7 +514,11 @@ def run_case(case):
             with Submitter(worker=worker, cache_root=cache, **kw) as sub:
                 res = sub(wf, raise_errors=True, rerun=rerun)
             obs["outcome"] = "ok"
-            if mode.startswith("coerce"):
+            if mode.startswith("hook"):
+                obs["outputs"] = [repr(getattr(res.outputs, "o%d" % n["id"])) for n in case["nodes"]]
+                hl = os.environ.get("VERIF_HOOK_LOG")
+                obs["hook_calls"] = sorted(open(hl).read().split("\n")[:-1]) if hl and os.path.exists(hl) else []
+            elif mode.startswith("coerce"):
                 # the exact Python values and types matter here (3 vs 3.0, tuple vs list)
                 obs["outputs"] = [repr(getattr(res.outputs, "o%d" % n["id"])) for n in case["nodes"]]
             else:
